@@ -384,7 +384,7 @@ def load_known():
     return {"findings": [], "fixed": []}
 
 
-def thorough_stability(units, gens, seed):
+def thorough_stability(units, gens, seed, base_fail):
     """thorough tier: re-discharge every unit under three more Z3 seeds (derived from VERIF_SEED). A VC is discharged if ANY
     proof search discharges it, so this never raises an alarm; it measures proof stability and is reported in the evidence."""
     rows = []
@@ -397,7 +397,10 @@ def thorough_stability(units, gens, seed):
             a = analyse_unit(u, r, gens[u][1], gens[u][0])
             fails = [x["obligation"] for x in a["failures"]] + ["%s.lemma.%s[%s]" % (u, o["kind"], o["clause"]) for o in a["other"]]
             rows.append({"unit": u, "z3_seed": z, "smt_ms": r.get("smt_ms", 0), "verified_fns": r.get("verified", 0),
-                         "failing_under_this_seed": fails, "compile_error": bool(a["compile_error"]), "resource": len(a["resource"])})
+                         # only obligations that the base run DISCHARGED and this seed does not (instability); obligations failing
+                         # in the base run too (known findings, or the violation being reported) are counted separately
+                         "failing_under_this_seed": [x for x in fails if x not in base_fail.get(u, set())],
+                         "failing_as_in_base_run": len([x for x in fails if x in base_fail.get(u, set())]), "compile_error": bool(a["compile_error"]), "resource": len(a["resource"])})
     return rows
 
 
@@ -432,6 +435,29 @@ def thorough_selftest(prop):
 
 
 def run_property(prop, tier, seed, replay, t0):
+    """Per-invocation unit directory units/<Cxx>-XXXXXX/: two runs of the same property (e.g. against /repo and against a scratch
+    copy, or quick and thorough at once) never share generated files. Removed after a quiet run; kept after a violation or an
+    undecided run (the diagnostics quote its line numbers) and garbage-collected after six hours."""
+    os.makedirs(UNITS, exist_ok=True)
+    now = time.time()
+    for d in os.listdir(UNITS):
+        pth = os.path.join(UNITS, d)
+        try:
+            if os.path.isdir(pth) and now - os.path.getmtime(pth) > 6 * 3600:
+                shutil.rmtree(pth, ignore_errors=True)
+        except OSError:
+            pass
+    udir = tempfile.mkdtemp(prefix=prop + "-", dir=UNITS)
+    rc = 2
+    try:
+        rc = _run_property(prop, tier, seed, replay, t0, udir)
+        return rc
+    finally:
+        if rc == 0 and not os.environ.get("VERIF_KEEP_UNITS"):
+            shutil.rmtree(udir, ignore_errors=True)
+
+
+def _run_property(prop, tier, seed, replay, t0, udir):
     props = load_props()
     if prop not in props:
         print("property %s is not claimed by this framework (see MANIFEST.not_applicable)" % prop)
@@ -443,7 +469,7 @@ def run_property(prop, tier, seed, replay, t0):
         ensure_extractor()
         gens = {}
         for u in units:
-            gens[u] = gen_unit(u, outdir=os.path.join(UNITS, prop))
+            gens[u] = gen_unit(u, outdir=udir)
         results = {}
         with cf.ThreadPoolExecutor(max_workers=min(8, len(units))) as ex:
             futs = {u: ex.submit(verify_file, gens[u][0]) for u in units}
@@ -597,7 +623,8 @@ def run_property(prop, tier, seed, replay, t0):
 
     stability, selftest = [], []
     if tier == "thorough" and not any(analyses[u]["compile_error"] for u in units):
-        stability = thorough_stability(units, gens, seed)
+        base_fail = {u: set([x["obligation"] for x in analyses[u]["failures"]] + ["%s.lemma.%s[%s]" % (u, o["kind"], o["clause"]) for o in analyses[u]["other"]]) for u in units}
+        stability = thorough_stability(units, gens, seed, base_fail)
         if not os.environ.get("VERIF_REPO"):
             selftest = thorough_selftest(prop)
         for st in selftest:
